@@ -176,6 +176,16 @@ Definition dump_msgx (m : hsmsgx) : list N :=
   end.
 Definition dump_hsx (x : hsx) : list N := dump_hshdr (fst x) ++ [msgx_type (snd x)] ++ dump_msgx (snd x).
 
+(* validatedClientHello / validatedServerHello on a hello decoded from b: the canonical hello *)
+Definition run_canon {A} (w : wcodec A) (dump : A -> list N) (b : bytes) : obs :=
+  match wdec w b with
+  | Some x => match canonicalize w x with
+              | Some c => Some (dump c, wenc w c)
+              | None => None
+              end
+  | None => None
+  end.
+
 (* None: the input is outside what the model covers (skipped and counted by the driver) *)
 Definition run (id : N) (ctx : list N) (b : bytes) : option obs :=
   match id with
@@ -218,6 +228,8 @@ Definition run (id : N) (ctx : list N) (b : bytes) : option obs :=
                    (fun x => let '(tys, (sigs, cas)) := x in
                              dump_list dump_one tys ++ dump_list dump_pair sigs ++ dump_list dump_bytes cas) b)
   | 109 => Some (run_w (w_hsx (ctxn ctx 0)) dump_hsx b)
+  | 110 => Some (run_canon w_client_hello dump_ch b)
+  | 111 => Some (run_canon w_server_hello dump_sh b)
   | 119 => Some (run_w w_ext_list (dump_list (fun x => fst x :: dump_bytes (snd x))) b)
   | 120 => Some (run_w w_connection_id dump_bytes b)
   | 121 => Some (run_w w_sni dump_bytes b)
